@@ -67,8 +67,18 @@ struct Beh {
 	int sub;             // BUILTIN: every later coin of the Sign (2 = PRF)
 	int pos, variant;    // TAMPER_*: position, 0: value+1, 1: value := q ; SILENT: pos = first dropped own broadcast (0 = all)
 	bool kgphase;        // TAMPER_*: the position counts the messages of Generate instead of those of every Sign
-	Beh() : kind(HONEST), in_keygen(false), kg_coin(0), top(0), K(0), sub(0), pos(0), variant(0), kgphase(false) {}
+	// cross-phase cells: the SAME faulty party additionally deviates in Generate: the first private share it sends to the honest
+	// party kg_victim is off by one; it then runs the honest code (answers the victim's complaint correctly, stays qualified)
+	// or, kg_unanswered, leaves the three broadcasts of its answer out and only sends the end marker of the answers
+	int kg_victim;
+	bool kg_unanswered;
+	Beh() : kind(HONEST), in_keygen(false), kg_coin(0), top(0), K(0), sub(0), pos(0), variant(0), kgphase(false), kg_victim(-1), kg_unanswered(false) {}
 	std::string kname() const
+	{
+		static const char *nm[] = { "honest", "builtin", "silent", "tamper-bcast", "tamper-ucast", "outcast" };
+		return kg_victim >= 0 ? "xphase" : nm[kind];
+	}
+	std::string k2name() const
 	{
 		static const char *nm[] = { "honest", "builtin", "silent", "tamper-bcast", "tamper-ucast", "outcast" };
 		return nm[kind];
@@ -76,7 +86,8 @@ struct Beh {
 	std::string id() const
 	{
 		std::ostringstream o;
-		o << kname();
+		if (kg_victim >= 0) o << "xphase.kgshare>" << kg_victim << (kg_unanswered ? ".unanswered" : ".answered") << "+";
+		o << k2name();
 		if (kind == BUILTIN)
 		{
 			o << ".top=" << std::hex << top << std::dec << "/" << K << ".sub=" << sub;
@@ -260,7 +271,8 @@ inline World run_world(const Cfg &C, uint64_t seed, bool want_log = false)
 	sched::Net ucastR(NR ? NR : 1), bcastR(NR ? NR : 1);
 	const bool reduced = (C.scheme == DSS && C.msgs.size() > 2);
 	// phases: 0 keygen, 1 + 2k sign k, 2 + 2k whatever follows sign k (refresh / idle)
-	std::vector<int> phase(N, 0), cntb(N, 0), cntu(N, 0), muted(N, 0);
+	std::vector<int> phase(N, 0), cntb(N, 0), cntu(N, 0), muted(N, 0), kgdone(N, 0);
+	std::vector<std::string> shift_id(N);
 	std::vector<Steer> steer(N);
 	std::vector<mcenv::CoinSource> coins;
 	for (size_t i = 0; i < N; i++) coins.push_back(mcenv::CoinSource(seed, 1000 + i));
@@ -287,6 +299,32 @@ inline World run_world(const Cfg &C, uint64_t seed, bool want_log = false)
 		const bool tphase = C.beh.kgphase ? phase[party] == 0 : in_sign(party);
 		if (!fl)
 			return true;
+		if (C.beh.kg_victim >= 0 && !is_reduced)
+		{
+			if (phase[party] == 0 && !is_bcast && !m.is_array && to_ == C.beh.kg_victim && !kgdone[party])
+			{
+				tamper_value(m.v[0], 0, G);                      // the share s_{b,victim} of the key's first (Pedersen/Joint-R) VSS
+				kgdone[party] = 1;
+				return true;
+			}
+			if (C.beh.kg_unanswered && own_rsend)
+			{
+				// own broadcasts of that VSS: 0..t commitments, t+1 end of its (empty) complaint list, t+2..t+4 the answer
+				// (who, s, s') to the single complainer, t+5 end marker of the answers.  The answer is left out; the later
+				// broadcasts of the same channel are renumbered so that the FIFO sequence has no gap.
+				if (phase[party] == 0 && shift_id[party].empty() && ordb == (int)T + 2) shift_id[party] = m.v[0];
+				if (phase[party] == 0 && m.v[0] == shift_id[party] && ordb >= (int)T + 2 && ordb <= (int)T + 4) return false;
+				if (!shift_id[party].empty() && m.v[0] == shift_id[party])
+				{
+					mpz_t sq;
+					mpz_init(sq);
+					mpz_set_str(sq, m.v[2].c_str(), 10);
+					mpz_sub_ui(sq, sq, 3L);
+					m.v[2] = dec(sq);
+					mpz_clear(sq);
+				}
+			}
+		}
 		switch (C.beh.kind)
 		{
 			case OUTCAST:
